@@ -584,6 +584,7 @@ pub(crate) fn replace_file_content<P: AsRef<Path>>(
 		temp_file.sync_all()?;
 	}
 
+	verif_yield!("manifest.temp_written");
 	// Apply original permissions to temp file if they exist
 	if let Some(permissions) = original_permissions {
 		if let Err(e) = std::fs::set_permissions(&temp_path, permissions) {
@@ -600,6 +601,7 @@ pub(crate) fn replace_file_content<P: AsRef<Path>>(
 		return Err(e);
 	}
 
+	verif_yield!("manifest.renamed");
 	let updated_file = crate::vfs::open_for_sync(target_path)?;
 	updated_file.sync_all()?;
 
